@@ -973,6 +973,9 @@ class Check:
             if not is_iterable(one_of):
                 raise ValueError('expected "one_of" argument to be iterable'
                                  ' , not: %r' % one_of)
+            if iter(one_of) is one_of:
+                # (a one-shot iterable would be spent by the first test)
+                one_of = tuple(one_of)
             if not one_of:
                 raise ValueError('expected "one_of" to contain at least'
                                  ' one value, not: %r' % (one_of,))
